@@ -2,6 +2,8 @@
 
 package parser
 
+import "github.com/hattya/go.sh/ast"
+
 // VerifHook, when set, is called at the synchronisation points of the
 // lexer and the parser (verification hook; build tag verif).
 var VerifHook func(id int, cancelled bool)
@@ -17,5 +19,15 @@ func verifPoint(id int, cancel <-chan struct{}) {
 			}
 		}
 		h(id, cancelled)
+	}
+}
+
+// VerifTokenHook, when set, is called by Lex with every token the
+// parser receives; lx identifies the lexer instance.
+var VerifTokenHook func(lx interface{}, typ int, pos ast.Pos, val string, w ast.Word)
+
+func verifToken(l *lexer, typ int, pos ast.Pos, val string, w ast.Word) {
+	if h := VerifTokenHook; h != nil {
+		h(l, typ, pos, val, w)
 	}
 }
